@@ -8,7 +8,10 @@ hook_commits = [l.split()[0] for l in hooks if "verif hooks" in l]
 NOTE = ("Trusted base: Lean 4.33.0 kernel (leanchecker re-check in the thorough tier); axioms propext, Classical.choice, Quot.sound only "
         "(audited by #print axioms on every run); hand-written Lean model tied to /repo's current tree by the correspondence run of this check "
         "(Rust harness linked against the real crates <-> compiled Lean driver), exhaustive where the domain is finite, sampled elsewhere; "
-        "std/bitflags/radix_trie behaviour modelled as stated in DESIGN.md section 5.")
+        "std/bitflags/radix_trie behaviour modelled as stated in DESIGN.md section 5. Where the property's proof modules include Tie / TieEnv, the model's tables "
+        "(type codes, RDATA field layouts, masks, limits, enum tables) and the numbers and orders of the envelope functions (peek / parse byte ranges, guards, advances, write orders, "
+        "match arms, refresh arithmetic) are regenerated from /repo's Rust sources on every run by tools/translate.py and tools/translate_env.py (regex-based extractors, trusted) and "
+        "proved equal to the hand-written model's; a source construct they cannot read is listed as untied and is then tied by the correspondence alone.")
 
 CLAIMED = {
  "C01": ("parse_no_panic / peek_no_panic proved for every byte string on the model (panicking Rust operations are explicit panic outcomes; every model loop passes Lean's termination checker); "
